@@ -11,7 +11,7 @@ CONSTANTS
   MaxEpoch = 4
   MaxOps = 100000
   Schedule = "free"
-  Features <- AllFeatures
+  Features <- AllLiveFeatures
 INVARIANT Accept
 INVARIANT Progress
 POSTCONDITION Post
